@@ -339,4 +339,34 @@ def Hash.listFib (h : Hash) : List (Name × Hops) :=
 def Hash.listStrat (h : Hash) : List (Name × Name) :=
   h.real.filterMap fun q => q.2.strat.map fun s => (q.1, s)
 
+
+/-! ## `ReplaceNextHopsEnc` and the interface calls -/
+
+/-- `FibNextHopsUpdate`: the complete new next-hop list of one prefix -/
+abbrev Update := Name × Hops
+
+/-- one mutating call of the `FibStrategy` interface -/
+inductive Call where
+  | op (o : Op)                    -- InsertNextHopEnc … UnSetStrategyEnc
+  | replace (us : List Update)     -- ReplaceNextHopsEnc
+deriving Repr
+
+def Call.admissible : Call → Bool
+  | .op o => o.admissible
+  | .replace _ => true
+
+/-- `ReplaceNextHopsEnc` (identical in both implementations, under one write lock):
+    `for _, update := range updates { f.clearNextHops(update.Name); for _, nh := range update.NextHops { f.insertNextHop(update.Name, nh.Nexthop, nh.Cost) } }`
+    where `clearNextHops`/`insertNextHop` are the bodies of `ClearNextHopsEnc`/`InsertNextHopEnc`. -/
+def replaceWith {σ : Type} (ap : σ → Op → σ) (t : σ) (us : List Update) : σ :=
+  us.foldl (fun t u => u.2.foldl (fun t h => ap t (.ins u.1 h.1 h.2)) (ap t (.clr u.1))) t
+
+def Tree.call (t : Tree) : Call → Tree
+  | .op o => t.apply o
+  | .replace us => replaceWith Tree.apply t us
+
+def Hash.call (h : Hash) : Call → Hash
+  | .op o => h.apply o
+  | .replace us => replaceWith Hash.apply h us
+
 end Ndn.C05
